@@ -380,6 +380,30 @@ def __infer_func_call(
         return DUPLICATE
 
 
+def _get_type_lineage(
+    t: s_objtypes.ObjectType,
+    *,
+    ctx: inf_ctx.InfCtx,
+) -> Tuple[s_objtypes.ObjectType, ...]:
+    """The material object types whose objects a set of type *t* may hold.
+
+    A view is as good as the type it is derived from (`A {x}` and `A {y}`
+    both hold A objects), and a union type stands for all of its
+    components (the type of `A UNION B` holds the objects of A, of B and
+    of their descendants).
+    """
+    schema = ctx.env.schema
+    _, mt = t.material_type(schema)
+    components = mt.get_union_of(schema).objects(schema) or (mt,)
+    lineage: List[s_objtypes.ObjectType] = []
+    for component in components:
+        _, component = component.material_type(schema)
+        for c in (component,) + tuple(component.descendants(schema)):
+            if c not in lineage:
+                lineage.append(c)
+    return tuple(lineage)
+
+
 @_infer_multiplicity.register
 def __infer_oper_call(
     ir: irast.OperatorCall,
@@ -419,7 +443,7 @@ def __infer_oper_call(
             ]
 
             lineages = [
-                (t,) + tuple(t.descendants(ctx.env.schema))
+                _get_type_lineage(t, ctx=ctx)
                 for t in types
             ]
             flattened = tuple(itertools.chain.from_iterable(lineages))
